@@ -23,6 +23,12 @@
 //!   (coordinates bit for bit, winding up to rotation of the triple), every vertex used, and as many vertices as the
 //!   selected triangles use in the source. The EMPTY selection is skipped: it panics (known finding of unit
 //!   mesh_from_indices: parry rejects an empty index buffer).
+//! * storage rotation of the faces (wave 3): each of the three meshes is rebuilt with every face triple stored rotated
+//!   by 1, by 2, and by (k + s) % 3 for face k and s in {0, 1, 2} -- so that every face occurs with its lowest vertex
+//!   index stored first, second and third (checked, not assumed). On each of these 15 meshes create_from_indices is
+//!   evaluated on every single face, every ordered pair of faces, the full list, the reversed full list and the odd
+//!   faces, and create_mesh on All and on every single-face selection: the same built-mesh clauses (winding identical
+//!   up to rotation of the triple, never reversed).
 use super::Report;
 use crate::{Mesh, Point3, SelectOp, Selection, Vector3};
 use std::collections::BTreeSet;
@@ -194,7 +200,7 @@ fn starts(n: usize) -> Vec<Selection> {
 }
 
 pub fn run() -> Option<Report> {
-    let mut r = Report::new("meshes: unit box (12 faces), 1x2x3 box with two unused vertices, 5-face mesh with a zero-area face; reference = the mesh shifted by (1/8,1/16,1/32); 18 criteria (facing(+z,0.1), facing(+x,pi/2), near_mesh with distance {0.1,0.2} x planar {None,0.05} x angle {None,0.2} x all_points {true,false}); steps = {Add,Remove,Keep} x criteria; 6-7 starting selections (None, All, index sets incl. a duplicated id and a reversed full list); every chain of 1 and 2 steps; create_mesh / create_from_indices on every non-empty 0- and 1-step result");
+    let mut r = Report::new("meshes: unit box (12 faces), 1x2x3 box with two unused vertices, 5-face mesh with a zero-area face; reference = the mesh shifted by (1/8,1/16,1/32); 18 criteria (facing(+z,0.1), facing(+x,pi/2), near_mesh with distance {0.1,0.2} x planar {None,0.05} x angle {None,0.2} x all_points {true,false}); steps = {Add,Remove,Keep} x criteria; 6-7 starting selections (None, All, index sets incl. a duplicated id and a reversed full list); every chain of 1 and 2 steps; create_mesh / create_from_indices on every non-empty 0- and 1-step result; storage rotation: the three meshes with every face triple rotated by 1, by 2 and by (k+s)%3 (s = 0,1,2) so that each face is stored with its lowest vertex index first, second and third: create_from_indices on every single face, ordered pair of faces, full / reversed / odd list and create_mesh on All and every single face");
     let crits = criteria();
     for (mname, mesh) in meshes().iter() {
         let reference = shifted(mesh);
@@ -254,7 +260,58 @@ pub fn run() -> Option<Report> {
             }
         }
     }
+    rotated_storage(&mut r);
     Some(r)
+}
+
+/// the mesh with face k stored rotated by rot(k) positions (same triangles, same winding)
+fn with_rotated_faces(m: &Mesh, rot: &dyn Fn(usize) -> usize) -> Mesh {
+    let faces = m.faces().iter().enumerate().map(|(k, f)| { let s = rot(k) % 3; [f[s], f[(s + 1) % 3], f[(s + 2) % 3]] }).collect();
+    Mesh::new(m.vertices().to_vec(), faces, false)
+}
+fn lowest_pos(f: &[u32; 3]) -> usize { (0..3).min_by_key(|&i| f[i]).unwrap() }
+
+fn rotated_storage(r: &mut Report) {
+    for (mname, base) in meshes().iter() {
+        let n = base.faces().len();
+        let schemes: Vec<(String, Box<dyn Fn(usize) -> usize>)> = vec![
+            ("every face rotated by 1".into(), Box::new(|_| 1)), ("every face rotated by 2".into(), Box::new(|_| 2)),
+            ("face k rotated by k % 3".into(), Box::new(|k| k)), ("face k rotated by (k + 1) % 3".into(), Box::new(|k| k + 1)),
+            ("face k rotated by (k + 2) % 3".into(), Box::new(|k| k + 2)),
+        ];
+        let mut seen = vec![[false; 3]; n];
+        for (sname, rot) in schemes.iter() {
+            let mesh = with_rotated_faces(base, rot.as_ref());
+            for (k, f) in mesh.faces().iter().enumerate() { if f[0] != f[1] && f[1] != f[2] && f[0] != f[2] { seen[k][lowest_pos(f)] = true; } }
+            let mut lists: Vec<Vec<usize>> = (0..n).map(|i| vec![i]).collect();
+            for i in 0..n { for j in 0..n { if i != j { lists.push(vec![i, j]); } } }
+            lists.push((0..n).collect());
+            lists.push((0..n).rev().collect());
+            lists.push((0..n).filter(|i| i % 2 == 1).collect());
+            for list in lists.iter() {
+                r.case();
+                let d = || format!("{} with {}: create_from_indices({:?}), source faces {:?}", mname, sname, list, list.iter().map(|&i| mesh.faces()[i]).collect::<Vec<_>>());
+                match catch_unwind(AssertUnwindSafe(|| mesh.create_from_indices(list))) {
+                    Ok(b) => check_built(r, &mesh, list, &b, d),
+                    Err(_) => r.check(false, "create_from_indices on a non-empty index list does not panic", d),
+                }
+            }
+            let mut sels: Vec<Selection> = (0..n).map(|i| Selection::Indices(vec![i])).collect();
+            sels.push(Selection::All);
+            for st in sels.iter() {
+                r.case();
+                let sel: Vec<usize> = start_set(n, st).into_iter().collect();
+                let d = || format!("{} with {}: face_select({:?}).create_mesh(), source faces {:?}", mname, sname, st, sel.iter().map(|&i| mesh.faces()[i]).collect::<Vec<_>>());
+                match catch_unwind(AssertUnwindSafe(|| mesh.face_select(st.clone()).create_mesh())) {
+                    Ok(b) => check_built(r, &mesh, &sel, &b, d),
+                    Err(_) => r.check(false, "create_mesh on a non-empty selection does not panic", d),
+                }
+            }
+        }
+        // the stated bound: together with the unrotated mesh of the main loop every face was stored in all three rotations
+        for (k, f) in base.faces().iter().enumerate() { if f[0] != f[1] && f[1] != f[2] && f[0] != f[2] { seen[k][lowest_pos(f)] = true; } }
+        r.check(seen.iter().all(|s| s.iter().all(|&b| b)), "input space: every face is stored with its lowest vertex index first, second and third", || format!("{}: {:?}", mname, seen));
+    }
 }
 
 fn clause(m: SelectOp) -> &'static str {
